@@ -382,6 +382,7 @@ class Interp(object):
         self.repo_root = repo_root
         self.modules = {}
         self.externals = {}       # dotted external name -> python callable(interp, *args, **kw) | value
+        self.model_paths = {}     # external module name -> path of a contract model source (assumed contract, interpreted like code)
         self.overrides = {}       # qualname -> callable(interp, args, kwargs) used instead of the body
         self.max_paths = max_paths
         self.parsed = {}          # path -> ast
@@ -421,7 +422,7 @@ class Interp(object):
             return self.modules[name]
         if name in self.externals:
             return self.externals[name]
-        path = self.module_path(name) if name.split(".")[0] == "ciderpress" else None
+        path = self.module_path(name) if name.split(".")[0] == "ciderpress" else self.model_paths.get(name)
         if path is None:
             m = self.external_module(name)
             self.modules[name] = m
@@ -874,6 +875,10 @@ class Interp(object):
             if owner is None:
                 if name == "__name__":
                     return v.name
+                if name == "__bases__":
+                    return tuple(v.bases)
+                if name == "__mro__":
+                    return tuple(v.mro())
                 raise PyRaise(mk_exc("AttributeError", "class %s has no attribute %s" % (v.name, name)))
             if isinstance(a, FuncV):
                 if a.kind == "classmethod":
@@ -983,6 +988,8 @@ class Interp(object):
                 raise PyRaise(mk_exc("TypeError", str(e)))
         if isinstance(base, Opaque):
             raise Unsupported("subscript of %r" % base)
+        if isinstance(base, (int, Q, bool)) or (isinstance(base, T) and not base.is_bool()):
+            raise PyRaise(mk_exc("TypeError", "'%s' object is not subscriptable" % ("int" if isinstance(base, int) else "float")))
         raise Unsupported("getitem on %r" % type(base).__name__)
 
     def hashable(self, k):
